@@ -216,6 +216,17 @@ int main() {
         vf::viol("dims-equality-merges-distinct-sets|" + std::to_string(i) + "," + std::to_string(j),
                  "{\"positions\":[" + std::to_string(i) + "," + std::to_string(j) + "],\"distinct_tuples\":65536,\"unordered_set_size\":" + std::to_string(us.size()) + ",\"set_size_of_4096\":" + std::to_string(os.size()) + "}");
     }
+  // (3a') the library's own constant: hashed and compared through the constant itself (by reference) and through a copy of it
+  {
+    const Dimensions copy = PhQ::Dimensionless, fresh{};
+    std::hash<Dimensions> H;
+    vf::stat("container_elements", 3);
+    std::unordered_set<Dimensions> us;
+    us.insert(PhQ::Dimensionless);
+    if (H(PhQ::Dimensionless) != H(copy) || H(PhQ::Dimensionless) != H(fresh) || !(PhQ::Dimensionless == fresh) || us.count(fresh) != 1 || us.count(copy) != 1 || (PhQ::Dimensionless < copy) ||
+        (copy < PhQ::Dimensionless))
+      vf::viol("dims-constant-differs-from-its-copy", "{\"hash_of_constant\":" + std::to_string(H(PhQ::Dimensionless)) + ",\"hash_of_copy\":" + std::to_string(H(copy)) + "}");
+  }
   // (3b) the hash is a hash of the whole 7-tuple: it depends on every exponent (for each slot there are tuples that differ in
   // that slot only and hash differently) - a deliberately weak requirement that any reasonable hash of the tuple meets
   for (int slot = 0; slot < 7; slot++) {
